@@ -118,6 +118,16 @@ func baseFlags(plan *Tape) []string {
 // dataflowCase is shared by C01, C02 and C03: a generated program, no faults,
 // an adversarial schedule; the history is checked against the reference evaluator.
 func dataflowCase(c *Ctx, focus string) {
+	if focus == "C02" && (c.Plan.Draw(8) == 0 || os.Getenv("VERIF_C02") == "restart") {
+		// the order of jobs across retries and restarts
+		c02Restart(c)
+		return
+	}
+	if focus == "C01" && (c.Plan.Draw(10) == 0 || os.Getenv("VERIF_C01") == "restart") {
+		// the arguments of jobs across retries and restarts
+		restartFamily(c, "C01")
+		return
+	}
 	gcfg := swarmGen(c.Plan, c.thorough())
 	if focus == "C02" && c.Plan.Draw(2) == 0 {
 		gcfg.Preflight = true
